@@ -1,6 +1,7 @@
 """C01 — every frame written is a well-formed masked RFC 6455 frame with exact payload."""
 import bvsym as sx
 from bvsym import core
+from .envpatch import EnvPatch
 from .common import (FakeOs, FakeSock, KeySource, Obligation, cover, new_ws, quiet_logging, ref_encode, ref_len_field)
 
 PROPERTY = "C01"
@@ -68,8 +69,8 @@ def f_full(entry, n, keysrc="default", kind="bytes", trace=False, text=None, spa
         cover("trace-on")
     key = _key(keysrc)
     src = KeySource([key])
-    real_os = A.os._real if isinstance(A.os, FakeOs) else A.os
-    A.os = FakeOs(real_os, src if keysrc == "default" else KeySource([]))
+    ep = EnvPatch()
+    ep.urandom(src if keysrc == "default" else KeySource([]), prefer=("websocket._abnf",))
     try:
         _f_full_body(entry, n, keysrc, kind, text, key, src, sparse)
     except (sx.Control, sx.ConcreteFailure, sx.ReplayMismatch):
@@ -77,7 +78,7 @@ def f_full(entry, n, keysrc="default", kind="bytes", trace=False, text=None, spa
     except Exception as e:
         sx.require(False, "send-side call raised %s" % type(e).__name__, entry=entry)
     finally:
-        A.os = real_os
+        ep.restore()
         if trace:
             websocket.enableTrace(False)
             quiet_logging()
